@@ -15,7 +15,11 @@ META = {
             'custom attribute exactly once (dedicated slot or extra); a number held by any numeric QVariant type inside its range is intact (the number under '
             'extra, its decimal digits - which identify it - in a routed slot, integer types).  The constants and the shape of format() are re-read from '
             'sentryformatter.cpp on every run; the extracted model is compared byte for byte with the real formatter (event id taken '
-            'from the output; its format and pairwise distinctness are checked, freshness itself is QUuid\'s).',
+            'from the output; its format and pairwise distinctness over ALL events of the run - several SentryFormatter objects side by side, '
+            'instance(), an object re-created mid-run - are checked, freshness itself is QUuid\'s).  Attributes also reach the message through '
+            'the handlers of a real Pipeline (FunctionAttrHandler -> updateAttributes with overrides, setAttribute(s), removeAttribute, nested / scoped pipelines): '
+            'the model applies the same steps (apply_ops) and theorems show that the event carries the CURRENT value of every name.  The harness also runs '
+            'with non-UTF-8 locale codecs (ISO-8859-1, windows-1252, Shift_JIS): the event text must not depend on them.',
     'note': 'Trusted: Coq 8.16.1 kernel (vm_compute for the closed configuration check and the 146097-day civil-calendar sweep), no axioms; '
             'tools/s2c/sentry.py, extraction (ExtrOcamlBasic only), ocaml/drv_sentry.ml, harness/h_sentry.cpp (virtual clock by defining '
             'gettimeofday/clock_gettime), Python json/datetime (independent oracle).  Modelled, not verified: QJsonDocument/QJsonObject, '
@@ -44,43 +48,82 @@ TIMES = [0, 999, 1000, 1001, DAY - 1, DAY, 951782400000, 951782400000 + DAY - 1,
          -62167219200000 + 366 * DAY]  # 0001-01-01
 # process environments of the harness sub-runs: the event must depend neither on the time zone nor on the
 # system locale (ar_EG / fa_IR have non-ASCII native digits; Qt uses its own CLDR data, no installed locale needed)
-TZS = ['XYZ-05:30|ar_EG.UTF-8', 'PQR8|fa_IR.UTF-8', 'UTC0|C']
+# third component: locale codec installed with QTextCodec::setCodecForLocale before anything else ('' = the default, UTF-8):
+# the event text is produced from UTF-8 bytes and must not depend on the local 8-bit codec either
+TZS = ['XYZ-05:30|ar_EG.UTF-8|ISO-8859-1', 'PQR8|fa_IR.UTF-8|Shift_JIS', 'UTC0|C|', 'ABC-03|C|windows-1252']
+SELS = {0: 'own object A', 1: 'own object B', 2: 'SentryFormatter::instance()', 3: 'object A destroyed and re-created, then A'}
 LONG = [8191, 8192, 8193, 20000]
 
 
 def env_of(tz):
-    z, loc = tz.split('|')
+    z, loc = tz.split('|')[:2]
     return {'TZ': z, 'LC_ALL': loc, 'LANG': loc, 'LC_NUMERIC': loc, 'LC_TIME': loc}
+
+
+def codec_of(tz):
+    t = tz.split('|')
+    return t[2] if len(t) > 2 and t[2] else '-'
 
 
 def long_case(rng, n):
     c = gen_case(rng, {}, 'wf')
     c['msg'] = [rng.choice([0x61, 0x62, 0x20, 0xE9, 0x4E2D, 0x22]) for _ in range(n)]
     c['attrs'] = c['attrs'][:2]
+    c['steps'] = [] if rng.random() < 0.5 else [['F', rng.randrange(4)]]
     return c
+
+
+def gen_attr_value(rng, hist, k, stream, mal, depth=0):
+    if k in ROUTES and stream != 'routed-any':
+        r = rng.random()
+        if r < 0.75:
+            v = ('s', J.gen_units(rng, None, 10, mal and rng.random() < 0.3))
+        elif r < 0.83:
+            v = (rng.choice('iId'), rng.choice(J.SMALL_INTS))
+        elif r < 0.9:
+            v = J.gen_number(rng, hist, J.INT_TYPED)   # int / uint / qlonglong / qulonglong at their boundaries: toString() = the digits
+        else:
+            v = ('b', rng.random() < 0.5)
+    else:
+        v = J.gen_value(rng, hist, depth, mal)
+    if k in ROUTES and v[0] in 'dF':
+        v = ('i', v[1])  # QVariant(double / float).toString() is outside the model (shortest 'g' form, e.g. 1e+06)
+    return v
+
+
+def gen_steps(rng, hist, keys, stream, mal, depth=0):
+    """handlers of the pipeline that processes the message: attribute handlers (U) that override names which are already on the
+    message (routed names and names that go to extra alike), setAttribute(s) / removeAttribute handlers, nested (scoped) pipelines,
+    and SentryFormatter objects (F) - `keys` (names set so far) grows along the way"""
+    steps = []
+    for _ in range(rng.choice([1, 2, 2, 3, 5]) if depth == 0 else rng.choice([1, 2, 3])):
+        op = rng.choice('UUUUASRFP' if depth < 2 else 'UUUASRF')
+        if op in 'US':
+            ks = [rng.choice(NAMES) if rng.random() < 0.7 else rng.choice(list(ROUTES)) for _ in range(rng.choice([0, 1, 1, 2, 3]))]
+            if keys and rng.random() < 0.7:
+                ks.append(rng.choice(keys))  # override a name that is already on the message with another value
+                hist['step_overrides_existing_name'] = hist.get('step_overrides_existing_name', 0) + 1
+            steps.append([op, [[J.units(k), gen_attr_value(rng, hist, k, stream, mal, 1)] for k in ks]])
+            keys += ks
+        elif op == 'A':
+            k = rng.choice(keys) if keys and rng.random() < 0.5 else rng.choice(NAMES)
+            steps.append(['A', J.units(k), gen_attr_value(rng, hist, k, stream, mal, 1)])
+            keys.append(k)
+        elif op == 'R':
+            steps.append(['R', J.units(rng.choice(keys) if keys and rng.random() < 0.7 else rng.choice(NAMES))])
+        elif op == 'F':
+            steps.append(['F', rng.randrange(4)])
+        else:
+            steps.append(['P', rng.random() < 0.5, gen_steps(rng, hist, keys, stream, mal, depth + 1) + [['F', rng.randrange(4)]]])
+        hist['step_' + op] = hist.get('step_' + op, 0) + 1
+    return steps
 
 
 def gen_case(rng, hist, stream):
     mal = stream == 'malformed'
     na = rng.choice([0, 1, 2, 3, 4, 6, 9])
     keys = [rng.choice(NAMES) if rng.random() < 0.8 else rng.choice(list(ROUTES)) for _ in range(na)]
-    attrs = []
-    for k in keys:
-        if k in ROUTES and stream != 'routed-any':
-            r = rng.random()
-            if r < 0.75:
-                v = ('s', J.gen_units(rng, None, 10, mal and rng.random() < 0.3))
-            elif r < 0.83:
-                v = (rng.choice('iId'), rng.choice(J.SMALL_INTS))
-            elif r < 0.9:
-                v = J.gen_number(rng, hist, J.INT_TYPED)   # int / uint / qlonglong / qulonglong at their boundaries: toString() = the digits
-            else:
-                v = ('b', rng.random() < 0.5)
-        else:
-            v = J.gen_value(rng, hist, 0, mal)
-            if k in ROUTES and v[0] in 'dF':
-                v = ('i', v[1])  # QVariant(double / float).toString() is outside the model (shortest 'g' form, e.g. 1e+06)
-        attrs.append((J.units(k), v))
+    attrs = [(J.units(k), gen_attr_value(rng, hist, k, stream, mal)) for k in keys]
     r = rng.random()
     if r < 0.25:
         # around the fingerprint cut: 97..103 units, astral pair straddling unit 100
@@ -100,9 +143,85 @@ def gen_case(rng, hist, stream):
             'file': None if nul or rng.random() < 0.05 else J.units(J.gen_ascii(rng, hist, FILES, 'file')),
             'fn': None if nul or rng.random() < 0.05 else J.units(J.gen_ascii(rng, hist, FUNCS, 'function')),
             'line': rng.choice(LINES), 'attrs': attrs, 'stream': stream}
+    # the handlers of a real pipeline: 35 % of the messages get attribute handlers / nested pipelines / several formatters,
+    # half of the rest is formatted by one pipeline-installed formatter object (A, B, instance(), re-created A), the others by A.format()
+    r = rng.random()
+    if r < 0.35:
+        steps = gen_steps(rng, hist, list(keys), stream, mal)
+        if rng.random() < 0.8 or not any(st[0] == 'F' for st in flat_steps(steps)):
+            steps.append(['F', rng.randrange(4)])
+    elif r < 0.7:
+        steps = [['F', rng.randrange(4)]]
+    else:
+        steps = []
+    case['steps'] = steps
     if mal and J.well_formed(case['msg']) and all(J.value_wf(v) for _, v in attrs):
         case['msg'] = case['msg'] + [0xDC00]
     return case
+
+
+def flat_steps(steps):
+    for st in steps:
+        if st[0] == 'P':
+            yield st
+            for x in flat_steps(st[2]):
+                yield x
+        else:
+            yield st
+
+
+def step_tokens(steps):
+    toks = []
+    for st in steps:
+        if st[0] in 'US':
+            toks += [st[0], str(len(st[1]))]
+            for k, v in st[1]:
+                toks += [J.hx(k)] + J.value_tokens(v)
+        elif st[0] == 'A':
+            toks += ['A', J.hx(st[1])] + J.value_tokens(st[2])
+        elif st[0] == 'R':
+            toks += ['R', J.hx(st[1])]
+        elif st[0] == 'F':
+            toks += ['F', str(st[1])]
+        elif st[0] == 'P':
+            toks += ['(', '1' if st[1] else '0'] + step_tokens(st[2]) + [')']
+    return toks
+
+
+def records(c):
+    """Python's own account of the message at each format() call of the pipeline: formatter object, attribute settings in order
+    (a later one overrides), the formatted-message field, and the flat attribute steps handed to the model (apply_ops)"""
+    if not c.get('steps'):
+        return [{'sel': 0, 'attrs': [(k, v) for k, v in c['attrs']], 'fmt': c['fmt'], 'ops': [], 'direct': True}]
+    recs, flat = [], []
+    st = {'attrs': [(k, v) for k, v in c['attrs']], 'fmt': c['fmt']}
+
+    def go(steps):
+        for s in steps:
+            t = s[0]
+            if t == 'U':
+                st['attrs'] = st['attrs'] + [(k, v) for k, v in s[1]]
+                flat.append(['U', s[1]])
+            elif t == 'S':
+                st['attrs'] = [(k, v) for k, v in s[1]]
+                flat.append(['S', s[1]])
+            elif t == 'A':
+                st['attrs'] = st['attrs'] + [(s[1], s[2])]
+                flat.append(s)
+            elif t == 'R':
+                st['attrs'] = [(k, v) for k, v in st['attrs'] if list(k) != list(s[1])]
+                flat.append(s)
+            elif t == 'F':
+                recs.append({'sel': s[1], 'attrs': list(st['attrs']), 'fmt': st['fmt'], 'ops': list(flat), 'direct': False})
+                st['fmt'] = ('rec', len(recs) - 1)   # Formatter::process stores the event as the formatted message
+            elif t == 'P':
+                saved = (list(st['attrs']), st['fmt'])
+                go(s[2])
+                if s[1]:   # a scoped pipeline restores the attributes and the formatted message
+                    st['attrs'], st['fmt'] = list(saved[0]), saved[1]
+                    flat.append(['S', [[k, v] for k, v in saved[0]]])
+    go(c['steps'])
+    return recs
 
 
 def opt(us):
@@ -114,6 +233,8 @@ def line_of(c):
             str(c['line']), str(len(c['attrs']))]
     for k, v in c['attrs']:
         toks += [J.hx(k)] + J.value_tokens(v)
+    if c.get('steps'):
+        toks += ['|'] + step_tokens(c['steps'])
     return ' '.join(toks)
 
 
@@ -215,6 +336,10 @@ def python_oracle(c, out_units, obs):
                 return 'attribute', 'custom attribute %r missing from extra' % k
             if not J.same(extra[k], J.value_py(v)):
                 return 'attribute', 'custom attribute %r is %r under extra, expected %r' % (k, extra[k], J.value_py(v))
+    for k in extra:
+        # C18_absent_name_not_in_extra: a name that is not (or no longer) on the message does not show up
+        if k not in custom and k not in ('line', 'file', 'thread_id'):
+            return 'attribute', 'extra holds %r = %s, which is not an attribute of the message at this point' % (k, _r(extra[k]))
     return finding
 
 
@@ -226,50 +351,121 @@ def event_id_of(out_units):
     return m.group(1) if m else None
 
 
-def run_cases(impl, model, cases, tz):
+def run_impl(impl, cases, tz):
+    """one harness process for the whole list (same SentryFormatter objects throughout); per case the records it printed"""
     lines = [line_of(c) for c in cases]
-    rc, out_i, err = vlib.run_lines(impl, lines, env=env_of(tz))
+    rc, out_i, err = vlib.run_lines(impl, lines, [codec_of(tz)], env=env_of(tz))
     if rc != 0 or len(out_i) != len(lines):
         return None, 'implementation crashed or stopped: rc=%s stderr=%s' % (rc, err[-400:])
-    mlines, res = [], []
-    for l, o in zip(lines, out_i):
+    res = []
+    for c, l, o in zip(cases, lines, out_i):
         t = o.split(' ')
-        if len(t) != 4:
-            return None, 'harness protocol error on %r -> %r' % (l, o)
-        ou = J.unhx(t[3])
-        eid = event_id_of(ou)
-        res.append({'ms_read_back': int(t[0]), 'tid': int(t[1]), 'qtver': t[2], 'impl': t[3], 'event_id': eid})
-        mlines.append(' '.join([l.split(' ', 1)[0], t[1], t[2], J.hx(J.units(eid)) if eid else '-', t[3], l.split(' ', 1)[1]]))
-    rc, out_m, err = vlib.run_lines(model, mlines)
-    if rc != 0 or len(out_m) != len(lines):
-        return None, 'model driver failed: rc=%s stderr=%s' % (rc, err[-400:])
-    for r, m in zip(res, out_m):
-        mm = m.split(' ')
-        r['model'] = mm[0]
-        r['verdict'] = mm[1] if len(mm) > 1 else '?'
+        recs = records(c)
+        if len(t) != 3 + len(recs):
+            return None, 'harness protocol error (%d records expected) on %r -> %r' % (len(recs), l[:300], o[:300])
+        for rec, h in zip(recs, t[3:]):
+            rec['impl'] = h
+            rec['event_id'] = event_id_of(J.unhx(h))
+        res.append({'ms_read_back': int(t[0]), 'tid': int(t[1]), 'qtver': t[2], 'recs': recs,
+                    'impl': recs[-1]['impl'], 'event_id': recs[-1]['event_id']})
     return res, None
 
 
+def model_line(c, r, rec):
+    fmt = rec['fmt']
+    if isinstance(fmt, tuple) and fmt[0] == 'rec':
+        fmt = J.unhx(r['recs'][fmt[1]]['impl'])   # the formatted message is the event an earlier formatter of the pipeline stored
+    eid = rec['event_id']
+    toks = [str(c['ms']), str(r['tid']), r['qtver'], J.hx(J.units(eid)) if eid else '-', rec['impl'],
+            str(c['type']), J.hx(c['msg']), opt(fmt), opt(c['cat']), opt(c['file']), opt(c['fn']), str(c['line']), str(len(c['attrs']))]
+    for k, v in c['attrs']:
+        toks += [J.hx(k)] + J.value_tokens(v)
+    if rec['ops']:
+        toks += ['|'] + step_tokens(rec['ops'])
+    return ' '.join(toks)
+
+
+def run_cases(impl, model, cases, tz):
+    res, err = run_impl(impl, cases, tz)
+    if res is None:
+        return None, err
+    mlines = [model_line(c, r, rec) for c, r in zip(cases, res) for rec in r['recs']]
+    rc, out_m, err = vlib.run_lines(model, mlines)
+    if rc != 0 or len(out_m) != len(mlines):
+        return None, 'model driver failed: rc=%s stderr=%s' % (rc, err[-400:])
+    k = 0
+    for r in res:
+        for rec in r['recs']:
+            mm = out_m[k].split(' '); k += 1
+            rec['model'] = mm[0]
+            rec['verdict'] = mm[1] if len(mm) > 1 else '?'
+        r['model'] = r['recs'][-1]['model']; r['verdict'] = r['recs'][-1]['verdict']
+    return res, None
+
+
+def differs(r):
+    return any(rec['impl'] != rec['model'] for rec in r['recs'])
+
+
 def judge(c, r, obs):
+    """(kind, detail[, fields]) if some record of the implementation falsifies the property on this case, else None"""
     if c['stream'] == 'malformed':
         return None
     if r['ms_read_back'] != c['ms']:
         return None  # virtual clock not effective: reported as broken correspondence by the caller
-    po = python_oracle(c, J.unhx(r['impl']), obs)
-    if po:
-        if po[0] == 'routed_nonscalar_value' and r['verdict'] == '1':
-            return 'oracle', 'the Python oracle reports a lost routed value but the extracted oracle prop_c18_b accepts the output'
-        return po
-    if r['verdict'] != '1':
-        return 'oracle', 'extracted oracle prop_c18_b rejects the implementation output (the Python oracle accepted it)'
-    return None
+    finding = None   # the open known finding (F16) never hides another violation of the same case
+    for n, rec in enumerate(r['recs']):
+        where = '' if rec.get('direct') else ' [record %d of %d of the pipeline, formatted by %s, %d attribute settings before it]' % (
+            n + 1, len(r['recs']), SELS[rec['sel']], len(rec['attrs']))
+        po = python_oracle(dict(c, attrs=rec['attrs']), J.unhx(rec['impl']), obs)
+        if po:
+            if po[0] == 'routed_nonscalar_value':
+                if rec['verdict'] == '1':
+                    return 'oracle', 'the Python oracle reports a lost routed value but the extracted oracle prop_c18_b accepts the output' + where
+                if finding is None:
+                    finding = (po[0], po[1] + where, dict(po[2], lost_value=[k_v for k_v in rec['attrs'] if J.pystr(k_v[0]) == po[2]['attribute']][-1]))
+                continue
+            return po[0], po[1] + where
+        if rec['verdict'] != '1':
+            return 'oracle', 'extracted oracle prop_c18_b rejects the implementation output (the Python oracle accepted it)' + where
+    return finding
+
+
+def shrink_steps(steps, ok):
+    """smaller pipeline that still fails: drop steps, inline nested pipelines, shrink the hashes of the handlers, prefer object A"""
+    steps = vlib.shrink_list(steps, ok, 60)
+    i = 0
+    while i < len(steps):
+        st = steps[i]
+        if st[0] == 'P':
+            inl = steps[:i] + list(st[2]) + steps[i + 1:]
+            if ok(inl):
+                steps = inl
+                continue
+            sub = shrink_steps(list(st[2]), lambda x, i=i, st=st: ok(steps[:i] + [['P', st[1], list(x)]] + steps[i + 1:]))
+            steps = steps[:i] + [['P', st[1], sub]] + steps[i + 1:]
+        elif st[0] in 'US':
+            l = vlib.shrink_list(list(st[1]), lambda x, i=i, st=st: ok(steps[:i] + [[st[0], list(x)]] + steps[i + 1:]), 30)
+            steps = steps[:i] + [[st[0], l]] + steps[i + 1:]
+        elif st[0] == 'F' and st[1] != 0:
+            t = steps[:i] + [['F', 0]] + steps[i + 1:]
+            if ok(t):
+                steps = t
+        i += 1
+    return steps
 
 
 def shrink_case(c, still_fails):
     cur = dict(c)
+    cur.setdefault('steps', [])
     t = dict(cur); t['msg'] = [0x61] * len(cur['msg'])
     if still_fails(t):
         cur = t
+    if cur['steps']:
+        def fs(items):
+            t = dict(cur); t['steps'] = list(items)
+            return still_fails(t)
+        cur['steps'] = shrink_steps(list(cur['steps']), fs)
     for field in ('attrs', 'msg'):
         def f(items, field=field):
             t = dict(cur); t[field] = list(items)
@@ -297,15 +493,96 @@ def shrink_case(c, still_fails):
     return cur
 
 
+def steps_text(steps, ind=''):
+    out = []
+    for st in steps:
+        if st[0] in 'US':
+            out.append(ind + ('attribute handler (FunctionAttrHandler -> updateAttributes) returning {%s}' if st[0] == 'U' else 'handler calling setAttributes({%s})')
+                       % ', '.join('%r: %s' % (J.pystr(k), ' '.join(J.value_tokens(v))) for k, v in st[1]))
+        elif st[0] == 'A':
+            out.append(ind + 'handler calling setAttribute(%r, %s)' % (J.pystr(st[1]), ' '.join(J.value_tokens(st[2]))))
+        elif st[0] == 'R':
+            out.append(ind + 'handler calling removeAttribute(%r)' % J.pystr(st[1]))
+        elif st[0] == 'F':
+            out.append(ind + 'SentryFormatter: %s  -> one record' % SELS[st[1]])
+        elif st[0] == 'P':
+            out.append(ind + 'nested Pipeline(scoped=%s):' % bool(st[1]))
+            out += steps_text(st[2], ind + '    ')
+    return out
+
+
 def describe(c, r, tz):
+    recs = r['recs'] if r else []
     return {'time_ms': c['ms'], 'type': c['type'], 'message_length_units': len(c['msg']), 'message_units': c['msg'] if len(c['msg']) <= 300 else c['msg'][:100] + ['...'], 'message': _r(J.pystr(c['msg']), 300),
             'formatted': None if c['fmt'] is None else repr(J.pystr(c['fmt'])),
             'category': None if c['cat'] is None else J.pystr(c['cat']), 'file': None if c['file'] is None else J.pystr(c['file']),
             'function': None if c['fn'] is None else J.pystr(c['fn']), 'line': c['line'],
             'attributes': [[repr(J.pystr(k)), ' '.join(J.value_tokens(v))] for k, v in c['attrs']],
-            'input_line': line_of(c), 'TZ': tz, 'environment': env_of(tz),
+            'pipeline_that_processes_the_message': steps_text(c.get('steps') or []) or ['none: A.format(message) is called directly'],
+            'input_line': line_of(c), 'TZ': tz, 'environment': env_of(tz), 'locale_codec_of_the_process': codec_of(tz) if codec_of(tz) != '-' else 'default (UTF-8)',
             'implementation_output': _r(J.pystr(J.unhx(r['impl'])), 3000) if r else None,
-            'model_output': _r(J.pystr(J.unhx(r['model'])), 3000) if r else None, 'case': c}
+            'model_output': _r(J.pystr(J.unhx(r['model'])), 3000) if r and 'model' in r else None,
+            'implementation_records': [_r(J.pystr(J.unhx(x['impl'])), 1500) for x in recs] if len(recs) > 1 else None,
+            'model_records': [_r(J.pystr(J.unhx(x.get('model', '-'))), 1500) for x in recs] if len(recs) > 1 else None,
+            'case': c}
+
+
+def all_ids(res):
+    return [rec['event_id'] for r in res for rec in r['recs'] if rec['event_id']]
+
+
+def first_repeat(ids):
+    seen = {}
+    for n, x in enumerate(ids):
+        if x in seen:
+            return seen[x], n, x
+        seen[x] = n
+    return None
+
+
+def plain_event(sel, text):
+    return {'ms': 0, 'type': 0, 'msg': J.units(text), 'fmt': None, 'cat': J.units('c'), 'file': J.units('f'), 'fn': J.units('g'), 'line': 1,
+            'attrs': [], 'stream': 'wf', 'steps': [['F', sel]] if sel is not None else []}
+
+
+def id_repeat_witness(impl, cases, res, idxs, tz_of):
+    """the run handed out one id twice: find a short sequence of events (one fresh process, or two) that shows it again"""
+    where = [(i, n) for i, r in enumerate(res) for n, rec in enumerate(r['recs']) if rec['event_id']]
+    a, b, dup = first_repeat(all_ids(res))
+    (ia, na), (ib, nb) = where[a], where[b]
+    sa, sb = res[ia]['recs'][na]['sel'], res[ib]['recs'][nb]['sel']
+    base = {'kind': 'event-id-repeat', 'event_id': dup, 'events': len(where),
+            'first_holder': {'case_index': ia, 'record': na, 'formatter': SELS[sa], 'sub_run': tz_of[ia]},
+            'second_holder': {'case_index': ib, 'record': nb, 'formatter': SELS[sb], 'sub_run': tz_of[ib]}}
+
+    def repeats(seq, tz):
+        rr, _ = run_impl(impl, seq, tz)
+        return rr is not None and first_repeat(all_ids(rr)) is not None
+    if tz_of[ia] != tz_of[ib]:
+        # two processes: the same event formatted first thing in each
+        ra, _ = run_impl(impl, [plain_event(sa, 'a')], tz_of[ia])
+        rb, _ = run_impl(impl, [plain_event(sb, 'a')], tz_of[ib])
+        if ra and rb and set(all_ids(ra)) & set(all_ids(rb)):
+            base.update({'two_processes': True, 'sequence': [plain_event(sa, 'a')], 'TZ': tz_of[ia], 'second_sequence': [plain_event(sb, 'a')], 'second_TZ': tz_of[ib],
+                         'ids_observed': [all_ids(ra), all_ids(rb)]})
+        return base
+    tz = tz_of[ia]
+    seq = None
+    for cand in ([plain_event(sa, 'a'), plain_event(sb, 'b')], [cases[ia], cases[ib]]):
+        if repeats(cand, tz):
+            seq = cand
+            break
+    if seq is None:
+        prefix = [cases[i] for i in idxs[tz] if i <= ib]
+        if repeats(prefix, tz):
+            seq = vlib.shrink_list(prefix, lambda x: len(x) >= 1 and repeats(x, tz), 60)
+            for n in range(len(seq)):
+                seq[n] = shrink_case(seq[n], lambda t, n=n: repeats(seq[:n] + [t] + seq[n + 1:], tz))
+    if seq is not None:
+        rr, _ = run_impl(impl, seq, tz)
+        base.update({'sequence': seq, 'TZ': tz, 'input_lines': [line_of(x) for x in seq],
+                     'events_of_the_sequence': [{'formatter': SELS[rec['sel']], 'event_id': rec['event_id']} for r in (rr or []) for rec in r['recs']]})
+    return base
 
 
 def run():
@@ -313,16 +590,18 @@ def run():
     chk.trusted = ['Coq 8.16.1 kernel; vm_compute on the closed terms sentry_cfg_goodb src_sentry_cfg and the 146097-day calendar sweep; no native_compute',
                    'axioms: none (every Print Assumptions: Closed under the global context)',
                    'tools/s2c/sentry.py translator (sentryformatter.cpp/.h -> SrcSentry.v)',
-                   'extraction ExtrOcamlBasic only; ocaml/drv_sentry.ml; harness/h_sentry.cpp (virtual wall clock)',
-                   'Python json / datetime as independent oracle on the implementation output',
-                   'modelled, not verified: QJsonDocument/QJsonObject, QVariant::toString, QDateTime UTC rendering; QUuid::createUuid is outside (format + distinctness observed)']
+                   'extraction ExtrOcamlBasic only; ocaml/drv_sentry.ml; harness/h_sentry.cpp (virtual wall clock; builds a real Pipeline of FunctionAttrHandler / FunctionHandler / SentryFormatter handlers from the steps of a case)',
+                   'Python json / datetime as independent oracle on the implementation output; Python\'s own replay of the attribute steps (records()) next to the model\'s apply_ops',
+                   'modelled, not verified: QJsonDocument/QJsonObject, QVariant::toString, QDateTime UTC rendering, QVariantHash (insert / assign / remove = apply_op); QUuid::createUuid is outside (format + distinctness over all formatter objects observed)']
     chk.assumptions = ['strings are sequences of 16-bit units (theorems) / well-formed UTF-16 (oracle streams); lone surrogates are only diffed',
-                       'message times lie in years 0001..9999 (four-digit ISO years)', 'the harness runs under three (TZ, system locale) environments incl. ar_EG / fa_IR; the event must not depend on them',
+                       'message times lie in years 0001..9999 (four-digit ISO years)',
+                       'the harness runs under four (TZ, system locale, locale codec) environments incl. ar_EG / fa_IR and the codecs ISO-8859-1, Shift_JIS, windows-1252; the event must not depend on them',
                        'a list, map or null under a routed name is rendered "" by QVariant::toString and skipped in extra: reported as kind routed_nonscalar_value (open known finding F16; C18_routed_nonscalar_value_lost_refuted); C18_oracle_holds assumes routed_scalar',
                        'numeric attribute values are integers of magnitude <= 2^53 held by an int, uint, qlonglong, qulonglong, double or float (float: <= 2^24) inside the range of the type; the type is part of the model input (JsonDefs.num_value); long / short / char QVariants are not generated (QJsonValue::fromVariant of Qt 5.15 renders them as strings)',
                        'a double / float under a routed name is rendered in shortest-g form (number text): not generated beyond small values, observation only',
                        'a fingerprint cut through a surrogate pair is an observation, not a violation (the cut is in UTF-16 units)',
-                       'thread id and Qt version string are read from the run and given to the model; the event id is taken from the output']
+                       'thread id and Qt version string are read from the run and given to the model; the event id is taken from the output',
+                       'attributes reach the message by setAttribute before the pipeline and through pipeline handlers (attribute handlers = updateAttributes, setAttribute(s), removeAttribute, nested and scoped pipelines); four SentryFormatter objects serve each sub-run (two own ones, instance(), one re-created at generated points); ids must be pairwise distinct over all of them and over all sub-runs']
     chk.proof(vlib.proof_leg('Properties_C18', ['json', 'sentry']))
     model = vlib.build_model('sentry')
     impl = vlib.build_harness('sentry')
@@ -333,17 +612,34 @@ def run():
     cdir = os.path.join(vlib.VERIF, 'corpus', 'C18')
     for p in sorted(os.listdir(cdir)) if os.path.isdir(cdir) else []:
         try:
-            cases.append(json.load(open(os.path.join(cdir, p))))
+            c = json.load(open(os.path.join(cdir, p)))
+            c.setdefault('steps', [])
+            cases.append(c)
         except Exception:
             pass
     ncorpus = len(cases)
+    # fixed scenarios of every sub-run (they rotate over the sub-runs): two attribute handlers in one pipeline where the second
+    # overrides a routed and an ordinary name of the first; a handler on the root and one on the nested (scoped / unscoped) pipeline;
+    # two own formatter objects, instance() and a re-created object side by side; non-ASCII text in the message and in the values
+    def kv(k, text):
+        return [J.units(k), ('s', J.units(text))]
+    for scoped in (False, True):
+        for sa, sb in ((0, 1), (2, 0), (1, 3), (3, 2)):
+            c = gen_case(chk.rng, {}, 'wf')
+            c.update({'msg': J.units('Gr\u00fc\u00dfe \u65e5\u672c \U0001F600'), 'attrs': [(J.units('user'), ('s', J.units('set-by-setAttribute'))), (J.units('appname'), ('s', J.units('app0')))],
+                      'steps': [['U', [kv('user', 'd\u00e9faut'), kv('request_id', 'none'), kv('appname', 'app1'), kv('host_name', 'h\u00f4te1')]],
+                                ['U', [kv('user', 'Zo\u00eb'), kv('appname', '\u30a2\u30d7\u30ea')]], ['F', sa],
+                                ['P', scoped, [['U', [kv('request_id', 'r-\u00e9-2'), kv('host_name', 'h\u00f4te2'), kv('os_name', 'Linux')]], ['F', sb]]],
+                                ['F', sa]]})
+            cases.append(c)
+    nfixed = len(cases) - ncorpus
     # very long messages (nothing may clip message.formatted): every length in thorough, all four once in quick
     for k in range(len(TZS) * len(LONG) if thorough else len(LONG)):
         cases.append(long_case(chk.rng, LONG[k % len(LONG)]))
     for i in range(n):
         r = chk.rng.random()
         cases.append(gen_case(chk.rng, hist, 'wf' if r < 0.85 else ('routed-any' if r < 0.92 else 'malformed')))
-    # one harness process per time zone (the event must not depend on it)
+    # one harness process per environment (the event must not depend on it)
     res = [None] * len(cases)
     tz_of = [TZS[i % len(TZS)] for i in range(len(cases))]
     import concurrent.futures
@@ -379,7 +675,7 @@ def run():
 
     diffs, bad, bad_fields = [], [], {}
     for i, (c, r) in enumerate(zip(cases, res)):
-        if r['impl'] != r['model']:
+        if differs(r):
             diffs.append(i)
         j = judge(c, r, obs)
         if j:
@@ -396,20 +692,20 @@ def run():
         if kind == 'routed_nonscalar_value':
             # shrink to the one offending attribute on an otherwise trivial message
             c0 = cases[i]
-            name = bad_fields[i]['attribute']
-            keep = [(k, v) for k, v in c0['attrs'] if J.pystr(k) == name][-1:]
-            t = dict(c0); t.update({'attrs': keep, 'msg': [], 'fmt': None, 'ms': 0, 'type': 0, 'line': 1,
+            keep = [tuple(bad_fields[i]['lost_value'])]
+            t = dict(c0); t.update({'attrs': keep, 'msg': [], 'fmt': None, 'ms': 0, 'type': 0, 'line': 1, 'steps': [],
                                     'cat': J.units('c'), 'file': J.units('f'), 'fn': J.units('g'), 'stream': 'routed-any'})
             small = t if kind_of(t, tz) == kind else shrink_case(c0, lambda t: kind_of(t, tz) == kind)
             rr, _ = run_cases(impl, model, [small], tz)
             j2 = judge(small, rr[0], {}) if rr else None
             d = describe(small, rr[0] if rr else None, tz)
             d.update({'kind': kind, 'detail': (j2 or (kind, detail))[1], 'falsified_cases': sum(1 for b in bad if b[1][0] == kind)})
-            d.update(j2[2] if j2 and len(j2) > 2 else bad_fields[i])
+            f2 = dict(j2[2] if j2 and len(j2) > 2 else bad_fields[i]); f2.pop('lost_value', None)
+            d.update(f2)
             chk.fail('SentryFormatter output falsifies C18 (%s): %s' % (kind, d['detail']), d, kind=kind)
             continue
         if kind_of(cases[i], tz) != kind:
-            # not reproducible on a fresh formatter: look for one earlier event of the same sub-run (same SentryFormatter object)
+            # not reproducible on fresh formatters: look for one earlier event of the same sub-run (same SentryFormatter objects)
             prev = [j for j in idxs[tz] if j < i][-60:]
             for j in reversed(prev):
                 if seq_kind([cases[j], cases[i]], tz) == kind:
@@ -430,16 +726,23 @@ def run():
                                                         'attributes': [[repr(J.pystr(k)), ' '.join(J.value_tokens(v))] for k, v in before['attrs']]}
         d.update({'kind': kind, 'detail': (k2 or (kind, detail))[1], 'falsified_cases': sum(1 for b in bad if b[1][0] == kind)})
         chk.fail('SentryFormatter output falsifies C18 (%s): %s' % (kind, d['detail']), d, kind=kind)
-    # event ids: pairwise distinct over the whole run
-    ids = [r['event_id'] for r in res if r['event_id']]
+    # event ids: pairwise distinct over ALL events of the run - every formatter object, every record, every sub-run
+    ids = all_ids(res)
     if len(set(ids)) != len(ids):
-        seen, dup = set(), None
-        for x in ids:
-            if x in seen:
-                dup = x; break
-            seen.add(x)
-        chk.fail('event ids are not pairwise distinct: %s handed out twice within %d events' % (dup, len(ids)),
-                 {'kind': 'event-id-repeat', 'event_id': dup, 'events': len(ids)}, kind='event-id-repeat')
+        d = id_repeat_witness(impl, cases, res, idxs, tz_of)
+        seq = d.get('events_of_the_sequence')
+        chk.fail('event ids are not pairwise distinct: %s handed out twice within %d events (%s and %s)%s' % (
+                     d['event_id'], len(ids), d['first_holder']['formatter'], d['second_holder']['formatter'],
+                     '; shown again by a fresh process formatting %d events: %s' % (len(seq), ', '.join('%s -> %s' % (e['formatter'], e['event_id']) for e in seq[:6])) if seq else ''),
+                 d, kind='event-id-repeat')
+    # the extracted oracle ids_ok_b on the ids of each sub-run (quadratic: the first 1500 events, which already interleave all objects)
+    ids_oracle = {}
+    for tz in TZS:
+        sub = [rec['event_id'] or '-' for i in idxs[tz] for rec in res[i]['recs']][:1500]
+        rc, o, err = vlib.run_lines(model, [' '.join(sub)], ['ids'])
+        ids_oracle[tz] = o[0] if rc == 0 and o else '?'
+        if ids_oracle[tz] != '1' and len(set(ids)) == len(ids) and all(re.fullmatch(r'[0-9a-f]{32}', x) for x in sub):
+            chk.broke('extracted oracle ids_ok_b rejects the ids of sub-run %s although they are well-formed and distinct' % tz, {'kind': 'oracle', 'ids': sub[:50]})
     if diffs:
         i = min(diffs, key=lambda k: len(line_of(cases[k])))
         d = describe(cases[i], res[i], tz_of[i])
@@ -448,18 +751,34 @@ def run():
     wf_cases = [c for c in cases if c['stream'] != 'malformed']
 
     def nontrivial(c):
-        return bool(c['attrs']) or len(c['msg']) > 100 or any(u < 32 or u in (34, 92) or u > 126 for u in c['msg'])
+        return bool(c['attrs']) or bool(c.get('steps')) or len(c['msg']) > 100 or any(u < 32 or u in (34, 92) or u > 126 for u in c['msg'])
+
+    def overrides(rec, routed):
+        seen = {}
+        for k, v in rec['attrs']:
+            seen.setdefault(J.pystr(k), []).append(' '.join(J.value_tokens(v)))
+        return any(len(set(vs)) > 1 and (k in ROUTES) == routed for k, vs in seen.items())
+    allrecs = [rec for r in res for rec in r['recs']]
     chk.cov.update({
-        'evaluations': len(cases), 'corpus_cases': ncorpus,
+        'evaluations': len(cases), 'corpus_cases': ncorpus, 'fixed_pipeline_scenarios': nfixed,
         'distinct_nontrivial': len({line_of(c) for c in cases if nontrivial(c)}),
         'rule': 'generated events (all five types, categories around "default" incl. path-like ones, path-like file/function strings, all six numeric QVariant types at their boundaries, messages around the 100-unit cut, routed and arbitrary attribute '
-                'names with repeats, calendar boundary times 0001..9999 under three TZ settings); non-trivial = has attributes, a message '
-                'longer than the cut or a character that is escaped / non-ASCII',
+                'names with repeats, calendar boundary times 0001..9999 under four TZ / locale / locale-codec settings; attributes set directly and through the handlers of a real pipeline with overrides; four formatter objects); '
+                'non-trivial = has attributes or pipeline steps, a message longer than the cut or a character that is escaped / non-ASCII',
         'streams': {s: sum(1 for c in cases if c['stream'] == s) for s in ('wf', 'routed-any', 'malformed')},
         'byte_exact_disagreements_model_vs_impl': len(diffs),
-        'oracle_evaluated_on_impl_outputs': len(wf_cases), 'oracle_falsified': len(bad),
+        'records_compared': len(allrecs), 'cases_processed_by_a_pipeline': sum(1 for c in cases if c.get('steps')),
+        'cases_with_attribute_handlers': sum(1 for c in cases if any(st[0] == 'U' for st in flat_steps(c.get('steps') or []))),
+        'cases_with_nested_pipeline': {'scoped': sum(1 for c in cases if any(st[0] == 'P' and st[1] for st in flat_steps(c.get('steps') or []))),
+                                       'unscoped': sum(1 for c in cases if any(st[0] == 'P' and not st[1] for st in flat_steps(c.get('steps') or [])))},
+        'records_where_a_name_was_overridden_with_another_value': {'routed_name': sum(1 for rec in allrecs if overrides(rec, True)),
+                                                                    'name_that_goes_to_extra': sum(1 for rec in allrecs if overrides(rec, False))},
+        'records_by_formatter_object': {SELS[k]: sum(1 for rec in allrecs if rec['sel'] == k and not rec.get('direct')) for k in SELS},
+        'records_by_direct_format_call_on_A': sum(1 for rec in allrecs if rec.get('direct')),
+        'records_with_non_ascii_text_by_locale_codec': {codec_of(tz): sum(1 for i in idxs[tz] if any(u > 127 for u in cases[i]['msg'])) for tz in TZS},
+        'oracle_evaluated_on_impl_outputs': sum(len(r['recs']) for c, r in zip(cases, res) if c['stream'] != 'malformed'), 'oracle_falsified': len(bad),
         'oracle_falsified_by_kind': {k: sum(1 for b in bad if b[1][0] == k) for k in sorted({b[1][0] for b in bad})},
-        'event_ids_seen': len(ids), 'event_ids_distinct': len(set(ids)),
+        'event_ids_seen': len(ids), 'event_ids_distinct': len(set(ids)), 'extracted_ids_oracle_per_sub_run': ids_oracle,
         'types': {LEVEL[t]: sum(1 for c in cases if c['type'] == t) for t in range(5)},
         'category_default_or_empty': sum(1 for c in cases if J.pystr(c['cat'] or []) in ('', 'default')),
         'messages_longer_than_cut': sum(1 for c in cases if len(c['msg']) > 100),
@@ -467,7 +786,7 @@ def run():
         'routed_attributes': sum(1 for c in cases for k, _ in c['attrs'] if J.pystr(k) in ROUTES),
         'other_attributes': sum(1 for c in cases for k, _ in c['attrs'] if J.pystr(k) not in ROUTES),
         'duplicate_attribute_names': sum(1 for c in cases if len({tuple(k) for k, _ in c['attrs']}) < len(c['attrs'])),
-        'boundary_times': sum(1 for c in cases if c['ms'] in TIMES), 'time_zone|system_locale_of_sub_runs': TZS,
+        'boundary_times': sum(1 for c in cases if c['ms'] in TIMES), 'time_zone|system_locale|locale_codec_of_sub_runs': TZS,
         'messages_of_8191_or_more_units': sum(1 for c in cases if len(c['msg']) >= 8191),
         'path_like_strings': {f: sum(1 for c in cases if c[f] and J.path_shapes(J.pystr(c[f]))) for f in ('cat', 'file', 'fn')},
         'numeric_type_histogram': {J.NUM_TYPES[t][0]: hist.get('num_' + J.NUM_TYPES[t][0], 0) for t in J.NUM_TOKENS},
@@ -475,7 +794,7 @@ def run():
         'observations': obs, 'generator_histogram': dict(sorted(hist.items())),
     })
     for i in (0, len(cases) // 3, len(cases) - 1):
-        chk.samples.append({'input': line_of(cases[i])[:300], 'impl': J.pystr(J.unhx(res[i]['impl']))[:400], 'equal_to_model': res[i]['impl'] == res[i]['model']})
+        chk.samples.append({'input': line_of(cases[i])[:300], 'impl': J.pystr(J.unhx(res[i]['impl']))[:400], 'equal_to_model': not differs(res[i])})
     return chk.finish()
 
 
@@ -483,21 +802,38 @@ def replay(path):
     r = json.load(open(path))['replay']
     if isinstance(r, list):
         r = r[0]
+    vlib.gen_src(['json', 'sentry'])
+    model = vlib.build_model('sentry'); impl = vlib.build_harness('sentry')
+    if r.get('kind') == 'event-id-repeat' and r.get('sequence'):
+        seen = []
+        for seq, tz in ((r['sequence'], r.get('TZ', 'UTC0|C')),) + (((r['second_sequence'], r.get('second_TZ', 'UTC0|C')),) if r.get('second_sequence') else ()):
+            rr, err = run_impl(impl, seq, tz)
+            if rr is None:
+                print(err); return 1
+            print('fresh process, environment', env_of(tz), 'locale codec', codec_of(tz))
+            for t, x in zip(seq, rr):
+                print('  input  ', line_of(t)[:300])
+                for rec in x['recs']:
+                    print('    formatted by %-45s event_id %s' % (SELS[rec['sel']], rec['event_id']))
+                    seen.append(rec['event_id'])
+        print('ids pairwise distinct:', len(set(seen)) == len(seen))
+        return 0
     c = r.get('case')
     if not c:
         print(json.dumps(r, indent=1)); return 0
-    vlib.gen_src(['json', 'sentry'])
-    model = vlib.build_model('sentry'); impl = vlib.build_harness('sentry')
     tz = r.get('TZ', 'UTC0|C')
     seq = ([r['earlier_event_on_the_same_formatter']['case']] if r.get('earlier_event_on_the_same_formatter') else []) + [c]
     res, err = run_cases(impl, model, seq, tz)
     if res is None:
         print(err); return 1
-    print('environment    ', env_of(tz))
+    print('environment    ', env_of(tz), 'locale codec', codec_of(tz))
     for t, x in zip(seq, res):
         print('input          ', line_of(t)[:400])
-        print('implementation ', _r(J.pystr(J.unhx(x['impl'])), 3000))
-        print('model          ', _r(J.pystr(J.unhx(x['model'])), 3000))
-        print('oracle verdict on the implementation output (1 = holds):', x['verdict'])
+        for line in steps_text(t.get('steps') or []):
+            print('   pipeline:   ', line)
+        for n, rec in enumerate(x['recs']):
+            print('record %d implementation ' % (n + 1), _r(J.pystr(J.unhx(rec['impl'])), 3000))
+            print('record %d model          ' % (n + 1), _r(J.pystr(J.unhx(rec['model'])), 3000))
+            print('record %d oracle verdict on the implementation output (1 = holds):' % (n + 1), rec['verdict'])
     print('judgement of the last event:', judge(seq[-1], res[-1], {}))
     return 0
